@@ -1275,6 +1275,425 @@ def check_C11(tier):
     return res.finish('./vcheck C11 --tier ' + tier)
 
 
+def check_C18(tier):
+    import coqeval, frontgen as fg, itertools
+    res = Result('C18', tier)
+    framework(res, ['C18_parse_join_items', 'C18_named_args_commute', 'C18_old_refuted'])
+    rng = random.Random(seed() * 41 + 18)
+    # ---- K8: the real tokenizer vs Front.AttrParser on generated attribute contents
+    named = ['priority = 3', 'priority = 12', 'callback = my_cb', 'callback = |lex| lex.slice().len()', 'ignore(case)', 'allow_greedy = true',
+             'allow_greedy = false', 'callback = path::to::cb', 'priority = 0x10', 'ignore(case, case)', 'unknown = 1', 'skip "x"', 'subpattern d = r"[0-9]"',
+             'type T = u32', 'extras = Vec<(u8, u8)>', 'error = MyErr', 'error(MyErr, my_cb)', 'utf8 = false', 'crate = ::logos', 'skip(" ", priority = 2)',
+             'export_dir = "d"', 'lifetime = \'a']
+    positional = ['my_cb', 'logos::skip', '|lex| lex.slice().parse()', '|lex| { foo(lex, 1, 2) }', '"lit"', 'b"\\xFF"', '|_| ()', 'a . b', '= 3', 'x y z', 'x y = 1']
+    texts = []
+    for a in named + positional:
+        texts.append(a)
+    for _ in range(150 if tier == 'quick' else 1500):
+        k = rng.randint(2, 5)
+        items = [rng.choice(named + positional) if rng.random() < 0.85 else rng.choice(['', ',', 'x,', '= =', '(a, b)']) for _ in range(k)]
+        texts.append(', '.join(items) + (',' if rng.random() < 0.1 else ''))
+    lines = ['a%d %s' % (i, t.encode('utf8').hex() or '-') for i, t in enumerate(texts)]
+    real = fg.front_tool('attr', lines)
+    exprs = []; exp_real = []; keep = []
+    for i, t in enumerate(texts):
+        r = real.get('a%d' % i)
+        if r is None or r == 'PANIC':
+            res.violation(None, 'attribute tokenizer panicked / no result on %r' % t, dict(attribute=t), found_input=True); continue
+        parts = r.split(' ')
+        canon = bytes.fromhex(parts[0]).decode() if parts[0] != '-' else ''
+        items = [bytes.fromhex(x).decode() for x in parts[1:] if x]
+        toks = fg.parse_canon(canon)
+        exprs.append('run_parse [%s]' % ';'.join(fg.coq_tok(x) for x in toks))
+        enc = []
+        for it in items:
+            enc += fg.enc_item_text(it)
+        exp_real.append(enc); keep.append(t)
+    model = coqeval.coq_eval(exprs, 'From LogosV Require Import Front.AttrParser.', 'attr')
+    nb = 0
+    for t, m, e in zip(keep, model, exp_real):
+        res.count('tokenizer_cases')
+        if m != e:
+            nb += 1
+            if nb <= 4:
+                res.violation(None, 'attribute %r: real tokenizer and Front.AttrParser differ' % t, dict(attribute=t, real_encoded=e, model_encoded=m,
+                              no_longer_checks='correspondence K8 AttributeParser vs Front.AttrParser.parse_all'), found_input=False)
+    res.oblige(nb == 0)
+    # ---- end to end: every order of the named arguments gives the same outcome and the same generated code
+    args = {'priority': 'priority = 7', 'callback': 'callback = cb', 'ignore': 'ignore(case)', 'allow_greedy': 'allow_greedy = true'}
+    defs = []
+    kinds = [('token', '"ab"', ['priority', 'callback', 'ignore']), ('regex', '"a[b-d]+.*"', ['priority', 'callback', 'ignore', 'allow_greedy']),
+             ('skip', '"[x-z]+.*"', ['priority', 'callback', 'ignore', 'allow_greedy'])]
+    poscbs = [None, 'cb', '|lex| cb(lex)']
+    idx = 0
+    groups = []
+    for kind, lit, names in kinds:
+        for r in range(0, len(names) + 1):
+            for subset in itertools.combinations(names, r):
+                for pos in poscbs:
+                    if pos is not None and 'callback' in subset:
+                        continue
+                    members = []
+                    for perm in itertools.permutations(subset):
+                        parts = [lit] + ([pos] if pos else []) + [args[a] for a in perm]
+                        body = ', '.join(parts)
+                        if kind == 'skip':
+                            src = '#[derive(Logos)] #[logos(skip(%s))] enum P%d { #[token("q")] Q }' % (body, idx)
+                        else:
+                            src = '#[derive(Logos)] enum P%d { #[%s(%s)] A, #[token("q")] Q }' % (idx, kind, body)
+                        members.append(('P%d' % idx, src, body)); idx += 1
+                    groups.append((kind, members))
+    if tier == 'quick':
+        rng.shuffle(groups)
+        groups = sorted(groups, key=lambda g: -len(g[1]))[:40] + groups[40:80]
+    # #[logos(...)] items: permutations that keep subpatterns before their use
+    litems = ['skip " "', 'skip("#", priority = 9)', 'subpattern d = "[0-9]"', 'subpattern dd = "(?&d)(?&d)"', 'extras = u8', 'error = E', 'utf8 = false']
+    lgroups = []
+    for _ in range(12 if tier == 'quick' else 120):
+        k = rng.randint(2, 5)
+        sub = rng.sample(litems, k)
+        perms = []
+        for perm in itertools.permutations(sub):
+            if 'subpattern dd = "(?&d)(?&d)"' in perm and ('subpattern d = "[0-9]"' not in perm or perm.index('subpattern d = "[0-9]"') > perm.index('subpattern dd = "(?&d)(?&d)"')):
+                continue
+            # keep the relative order of the skips (their order numbers the leaves)
+            sk = [x for x in perm if x.startswith('skip')]
+            if sk != [x for x in sub if x.startswith('skip')]:
+                continue
+            perms.append(perm)
+        members = []
+        for perm in perms[:24]:
+            body = ', '.join(perm)
+            use = '(?&dd)x' if any('dd' in x for x in perm) else ('(?&d)y' if any('subpattern d ' in x for x in perm) else 'zz')
+            src = '#[derive(Logos)] #[logos(%s)] enum P%d { #[regex("%s")] A }' % (body, idx, use)
+            members.append(('P%d' % idx, src, body)); idx += 1
+        if len(members) > 1:
+            lgroups.append(('logos', members))
+    allgroups = groups + lgroups
+    d = cache_dir('gen', 'c18-%d-%s' % (seed(), tier))
+    srcp = os.path.join(d, 'c18.rs')
+    open(srcp, 'w').write('\n'.join(src for _, ms in allgroups for _, src, _ in ms) + '\n')
+    caps = {c.name: c for c in build.capture_files([srcp], 'c18-%d-%s' % (seed(), tier), gen=True)}
+    import re as _re
+    nb2 = 0
+    for kind, members in allgroups:
+        base = None
+        for name, src, body in members:
+            c = caps.get(name)
+            res.count('permutation_definitions')
+            if c is None or c.panic is not None:
+                res.violation(None, 'derive panicked on %s' % body, dict(definition=src)); continue
+            gen = open(c.gen_path).read() if os.path.exists(c.gen_path) else ''
+            gen = gen.replace(name, 'P')
+            sig = (c.outcome, gen if c.accepted else None, tuple((l['prio'], l['hir'], l['kind']) for l in c.leaves))
+            if base is None:
+                base = (sig, body, src, c)
+            elif sig != base[0]:
+                nb2 += 1
+                if nb2 <= 6:
+                    what = 'outcome %s vs %s' % (c.outcome, base[3].outcome) if sig[0] != base[0][0] else 'generated lexer differs'
+                    res.violation(None, 'argument order matters: `%s` vs `%s`: %s (%s)' % (body, base[1], what, (c.cerrs or base[3].cerrs)[:1]),
+                                  dict(definition=src, canonical_definition=base[2], errors=c.cerrs[:3], canonical_errors=base[3].cerrs[:3]))
+    res.oblige(nb2 == 0)
+    res.cov['permutation_groups'] = len(allgroups)
+    res.cov['rule'] = ('K8: the real AttributeParser vs Front.AttrParser.parse_all (vm_compute) on curated and random comma-joined attribute contents incl. malformed ones; '
+                       'end to end: every permutation of up to 4 named arguments x {token, regex, skip(...)} x {no positional callback, label, closure} and dependency-respecting permutations of #[logos(...)] items: '
+                       'same accept/reject, same leaves, byte-identical generated code as the first order')
+    res.trusted += ['Coq kernel + vm_compute', 'hook canonical_tokens / nested_debug printers', 'lib/frontgen.py encoders']
+    res.assumptions += ['values of arguments are parsed by syn (outside the model); permutations that reorder skips change leaf numbering and are compared by C01-style equivalence elsewhere, not here']
+    return res.finish('./vcheck C18 --tier ' + tier)
+
+
+def build_cli():
+    tdir = cache_dir('target-cli')
+    r = sh(['cargo', 'build', '--offline', '-p', 'logos-cli', '--target-dir', tdir], cwd=REPO, check=False, timeout=1800)
+    if r.returncode != 0:
+        raise build.BuildError('logos-cli does not build:\n' + r.stdout[-3000:])
+    return os.path.join(tdir, 'debug', 'logos-cli')
+
+
+def c17_sources(rng, n):
+    derive_pool = ['Debug', 'Clone', 'PartialEq', 'serde::Serialize', '::core::fmt::Debug', 'Eq', 'core::hash::Hash', 'Copy']
+    logos_forms = ['Logos', 'logos::Logos', '::logos::Logos']
+    out = []
+    for i in range(n):
+        k = rng.randint(0, 4)
+        ds = rng.sample(derive_pool, k)
+        pos = rng.randint(0, len(ds))
+        ds.insert(pos, rng.choice(logos_forms) if rng.random() < 0.4 else 'Logos')
+        trailing = ',' if rng.random() < 0.15 else ''
+        attrs = ['#[derive(%s%s)]' % (', '.join(ds), trailing)]
+        if rng.random() < 0.3: attrs.insert(0, '/// Token doc comment')
+        if rng.random() < 0.3: attrs.append('#[repr(u8)]')
+        if rng.random() < 0.3: attrs.append('#[cfg_attr(test, derive(Hash))]')
+        if rng.random() < 0.3: attrs.insert(rng.randint(0, len(attrs)), '#[derive(PartialOrd)]')
+        if rng.random() < 0.5: attrs.append('#[logos(skip " +")]')
+        if rng.random() < 0.3: attrs.append('#[allow(dead_code)]')
+        vs = []
+        for j in range(rng.randint(1, 4)):
+            va = []
+            if rng.random() < 0.3: va.append('/// variant doc')
+            va.append('#[token("t%d")]' % j if rng.random() < 0.5 else '#[regex("r%d[a-z]+")]' % j)
+            if rng.random() < 0.3: va.append('#[allow(unused)]')
+            if rng.random() < 0.2: va.append('#[regex("s%d[0-9]")]' % j)
+            body = 'V%d' % j
+            if rng.random() < 0.25:
+                body += '(%s&\'a str)' % ('#[allow(unused)] ' if rng.random() < 0.5 else '')
+            vs.append('    ' + '\n    '.join(va) + '\n    ' + body + ',')
+        if rng.random() < 0.2:
+            vs.append('    Plain,')
+        lt = "<'a>" if any("'a" in v for v in vs) else ''
+        vis = rng.choice(['pub ', '', 'pub(crate) '])
+        out.append('\n'.join(attrs) + '\n%senum Tok%d%s {\n%s\n}\n' % (vis, i, lt, '\n'.join(vs)))
+    return out
+
+
+def check_C17(tier):
+    import coqeval, frontgen as fg, tempfile, shutil
+    res = Result('C17', tier)
+    framework(res, ['C17_strip_derive_keeps_others', 'C17_strip_derive_spec', 'C17_old_refuted', 'C17_check_never_writes', 'C17_check_ok_iff', 'C17_write_then_check_ok'])
+    cli = build_cli()
+    rng = random.Random(seed() * 43 + 17)
+    srcs = c17_sources(rng, 40 if tier == 'quick' else 400)
+    srcs.insert(0, '#[derive(Logos, serde::Serialize, Debug)]\nenum Tok { #[token("a")] A }\n')
+    srcs.insert(1, '#[derive(::core::fmt::Debug, Logos)]\n#[derive(core::clone::Clone)]\npub enum Tok { #[regex("a+")] A, #[token("b")] B }\n')
+    work = cache_dir('c17work')
+    for f in os.listdir(work):
+        os.remove(os.path.join(work, f))
+    lines = []
+    nb = 0
+    for i, src in enumerate(srcs):
+        ip = os.path.join(work, 'in%d.rs' % i); op = os.path.join(work, 'out%d.rs' % i)
+        open(ip, 'w').write(src)
+        r = sh([cli, ip], check=False)
+        res.count('cli_runs')
+        if r.returncode != 0:
+            res.oblige(False); nb += 1
+            res.violation(None, 'logos-cli failed (exit %d) on a valid enum' % r.returncode, dict(input=src, output=r.stdout[-500:])); continue
+        open(op, 'w').write(r.stdout)
+        lines.append('c%d %s %s' % (i, ip.encode().hex(), op.encode().hex()))
+    verdicts = fg.front_tool('clicheck', lines)
+    for i, src in enumerate(srcs):
+        v = verdicts.get('c%d' % i)
+        if v is None:
+            continue
+        ok = v.startswith('valid_rust=1 enum_ok=1 impl_ok=1')
+        res.oblige(ok)
+        if not ok:
+            nb += 1
+            if nb <= 6:
+                parts = v.split(' ')
+                detail = bytes.fromhex(parts[-1]).decode('utf8', 'replace') if parts and all(c in '0123456789abcdef' for c in parts[-1]) and parts[-1] else v
+                res.violation(None, 'logos-cli output for an enum is not the stripped enum + derive implementation: %s (%s)' % (' '.join(parts[:3]), detail),
+                              dict(input=src, cli_output_head=open(os.path.join(work, 'out%d.rs' % i)).read()[:400], verdict=v))
+    # --output / --check sequences against the Coq model of main()
+    scen = [('write', None), ('check', None), ('edit', 'crlf'), ('check', None), ('edit', 'trailing_newline'), ('check', None), ('edit', 'change'), ('check', None),
+            ('write', None), ('check', None), ('edit', 'delete'), ('check', None), ('write', None), ('edit', 'blank_line'), ('check', None)]
+    nseq = 2 if tier == 'quick' else 8
+    nbad = 0
+    for k in range(nseq):
+        ip = os.path.join(work, 'in%d.rs' % k); tp = os.path.join(work, 'target%d.rs' % k)
+        if os.path.exists(tp): os.remove(tp)
+        output = sh([cli, ip], check=False).stdout
+        output = output[:-1] if output.endswith('\n') else output        # println! adds the newline on stdout
+        exprs = []; observed = []
+        for op, arg in scen:
+            before = open(tp, 'rb').read() if os.path.exists(tp) else None
+            if op in ('write', 'check'):
+                cmd = [cli, ip, '--output', tp] + (['--check'] if op == 'check' else [])
+                r = sh(cmd, check=False)
+                after = open(tp, 'rb').read() if os.path.exists(tp) else None
+                observed.append((op, 0 if r.returncode == 0 else 1, after))
+                ex = '(fun _ => %s)' % ('None' if before is None else 'Some %s' % coqeval.nlist(before))
+                exprs.append('match run %s (Some 0) %s %s with (o, _, f) => (match o with Ok => 0 | Err => 1 end) :: match f 0 with Some t => 1 :: t | None => [0] end end'
+                             % (coqeval.nlist(output.encode()), 'true' if op == 'check' else 'false', ex))
+            else:
+                if arg == 'delete':
+                    if os.path.exists(tp): os.remove(tp)
+                elif before is not None:
+                    if arg == 'crlf': new = before.replace(b'\n', b'\r\n')
+                    elif arg == 'trailing_newline': new = before + b'\n'
+                    elif arg == 'blank_line': new = before + b'\n\n'
+                    else: new = before.replace(b'enum', b'enum ', 1) if b'enum' in before else before + b'x'
+                    open(tp, 'wb').write(new)
+        model = coqeval.coq_eval(exprs, 'From LogosV Require Import Cli.Cli.', 'cli', shard=1)
+        for (op, code, after), m in zip(observed, model):
+            res.count('cli_sequence_steps')
+            exp_after = None if m[1] == 0 else bytes(m[2:])
+            if code != m[0] or after != exp_after:
+                nbad += 1
+                if nbad <= 4:
+                    res.violation(None, 'logos-cli %s step: exit %d (model %d), file %s' % (op, code, m[0], 'as the model says' if after == exp_after else 'differs from the model'),
+                                  dict(input=open(ip).read(), step=op, exit=code, model_exit=m[0], file_changed=(after != exp_after)))
+    res.oblige(nbad == 0)
+    res.cov['rule'] = ('generated enum sources (Logos in every position of the derive list, as Logos / logos::Logos / ::logos::Logos, path derives with and without leading ::, trailing comma, several derive attributes, cfg_attr, repr, doc comments, '
+                       'variant and field attributes, lifetimes, visibility): the logos-cli binary output is parsed (valid Rust), its enum compared structurally with an independent syn-based expectation and the rest with generate(); '
+                       'sequences of write / --check / external edits (CRLF, trailing newline, blank line, content change, delete) against Cli.run evaluated by vm_compute')
+    res.trusted += ['Coq kernel + vm_compute', 'tools/capture/src/clicheck.rs (independent expectation, written from the property)', 'lib/checks.py sequence driver']
+    res.assumptions += ['"valid Rust" is checked by parsing with syn, not proved', 'the file system is modelled as a map; rustfmt (--format) is outside the property']
+    return res.finish('./vcheck C17 --tier ' + tier)
+
+
+C19_FRAGS_TOK = ['"a"', '"a", f', '"a", |l| 1', '"a", priority = 1', '"a", priority = 1, priority = 2', '"a", callback = f, callback = g', '"a", f, callback = g',
+                 '"a", ignore(case)', '"a", ignore(case), ignore(case)', '"a", ignore()', '"a", ignore(x)', '"a", foo', '"a", foo = 1', '"a", = 1', '"a", ,', '1', 'b"\\xff"', "'c'", '', 'x y', '"a" "b"',
+                 '"a", priority = -1', '"a", priority = 99999999999999999999999', '"a", allow_greedy = true', '"a", callback = |a, b| 1', '"a", callback = ', '"a", priority', '"a", ignore(case) priority = 2']
+C19_REGEXES = ['a', 'a*', 'a+', '(a|)', '', '$', 'a$', '(?m:^)a', '(?-u:\\b)a', 'a(?-u:\\b)', 'a\\b', '.*', 'a.*', '(a.*)+', '(a.+)?b', 'a(.*b)?', '[^\\n]*x', '(?s).+', 'a.*?', '.{2,}', '(.*)', '((a|.*))',
+               '(a', '[a', 'a{2,1}', '\\1', '(?=a)', '(?<n>a)', '(?&nope)', '(?&)', '\\p{Nope}', '\\xZZ', 'a{99999}', '(a*)*', '(a+)+b', '[\\x80-\\xff]', '(?-u:\\xff)', '(?i)a', '(?x) a b']
+C19_SHAPES = ['A', 'A()', 'A(u8)', 'A(u8, u8)', 'A { x: u8 }', 'A(&\'s str)', 'A(T)']
+C19_LOGOS = ['skip " "', 'skip', 'skip("x", f)', 'skip("x", callback = f, callback = g)', 'skip(".*")', 'skip("(a.*)+")', 'extras = A', 'extras = A, extras = B', 'error = E', 'error(E, f)', 'error(E, callback = f, callback = g)',
+             'error(E, f, g)', 'error()', 'utf8 = false', 'utf8 = 3', 'subpattern a = "x"', 'subpattern a = "x", subpattern a = "y"', 'subpattern a "x"', 'subpattern 1a = "x"', 'type T = u8', 'type T', 'crate = ::logos',
+             'crate', 'export_dir = "d"', 'lifetime = \'s', 'lifetime = none', 'source = str', 'bogus', '"lit"', '= 3', ',', '']
+
+
+def c19_random(rng, n):
+    out = []
+    for i in range(n):
+        k = rng.random()
+        logos = ''
+        if rng.random() < 0.5:
+            logos = '#[logos(%s)] ' % ', '.join(rng.choice(C19_LOGOS) for _ in range(rng.randint(1, 3)))
+        gen = rng.choice(['', '', '', "<'s>", '<T>', '<const N: usize>', "<'s, T>"])
+        vs = []
+        for j in range(rng.randint(1, 3)):
+            shape = rng.choice(C19_SHAPES).replace('A', 'V%d' % j, 1)
+            if k < 0.5:
+                attr = '#[token(%s)]' % rng.choice(C19_FRAGS_TOK)
+            else:
+                rx = rng.choice(C19_REGEXES)
+                extra = rng.choice(['', '', ', priority = 3', ', allow_greedy = true', ', ignore(case)', ', f', ', callback = f, callback = g'])
+                attr = '#[regex("%s"%s)]' % (rx, extra)
+            if rng.random() < 0.1:
+                attr += ' #[error]'
+            vs.append('%s %s' % (attr, shape))
+        out.append('#[derive(Logos)] %senum M%d%s { %s }' % (logos, i, gen, ', '.join(vs)))
+    return out
+
+
+def check_C19(tier):
+    import coqeval, json as _json
+    res = Result('C19', tier)
+    framework(res, ['C19_never_panics', 'C19_bad_variant_rejected', 'C19_greedy_complete', 'C19_greedy_sound',
+                    'C19_old_panics_on_empty_tuple', 'C19_old_panics_on_duplicate_callback', 'C19_greedy_old_refuted'])
+    rng = random.Random(seed() * 47 + 19)
+    mal = os.path.join(VERIF, 'corpus', 'front', 'malformed.rs')
+    n = 250 if tier == 'quick' else 3000
+    d = cache_dir('gen', 'c19-%d-%d' % (seed(), n))
+    rnd = os.path.join(d, 'c19rand.rs')
+    open(rnd, 'w').write('\n'.join(c19_random(rng, n)) + '\n')
+    # ---- library entry point under catch_unwind
+    curated = build.capture_files([mal], 'c19-malformed')
+    randcaps = build.capture_files([rnd], 'c19-rand-%d-%d' % (seed(), n))
+    repo_caps, rand_graph = ce.corpora(tier, res)
+    npanic = 0
+    for c in list(curated) + list(randcaps) + list(repo_caps) + list(rand_graph):
+        res.count('generate_calls')
+        if c.panic is not None:
+            npanic += 1
+            if npanic <= 5:
+                res.violation(None, 'generate() panicked on %s: %s' % (c.id, c.panic[:120]), dict(definition=c.source, panic=c.panic[:300], mode='library'))
+    res.oblige(npanic == 0)
+    nacc = 0
+    for c in curated:
+        if c.panic is None and c.outcome != 'rejected':
+            nacc += 1
+            if nacc <= 6:
+                res.violation(None, '%s must be rejected (it cannot be implemented faithfully / is malformed) but is accepted' % c.id, dict(definition=c.source))
+    res.oblige(nacc == 0)
+    res.count('curated_must_reject', len(curated))
+    # ---- greedy-dot test: Pattern::check_for_greedy_all vs Regex.Greedy.greedy on every captured leaf; and the reject rule
+    exprs = []; idx = []
+    for c in list(curated) + list(randcaps) + list(repo_caps) + list(rand_graph):
+        if c.panic is not None:
+            continue
+        for l in c.leaves:
+            if l['hir'] and l['hir'] != '-':
+                exprs.append('[if greedy %s then 1 else 0]' % capmod.coq_re(capmod.parse_sexpr(l['hir']), max_ranges=4000 if 'CU' not in l['hir'] or len(l['hir']) < 400 else 24))
+                idx.append((c, l))
+    vals = coqeval.coq_eval(exprs, 'From LogosV Require Import Regex.Re Regex.Greedy.', 'greedy', shard=max(50, len(exprs) // 16 + 1))
+    nb = 0
+    for (c, l), v in zip(idx, vals):
+        res.count('leaves_greedy_checked')
+        bad = None
+        if bool(v[0]) != l['greedy_all']:
+            bad = 'check_for_greedy_all = %s, specification (unbounded greedy dot repetition at any depth) = %s' % (l['greedy_all'], bool(v[0]))
+        elif v[0] and len(c.attrs) == len(c.leaves) and c.attrs[l['idx']].get('allow_greedy', '-') != 'true' and c.attrs[l['idx']].get('kind') != 'token' and c.accepted:
+            bad = 'unbounded greedy dot repetition accepted without allow_greedy'
+        if bad:
+            nb += 1
+            if nb <= 6:
+                res.violation(None, '%s leaf %d %s: %s' % (c.id, l['idx'], l['src'], bad), dict(definition=c.source, pattern=l['src'], hir=l['hir'][:300]))
+    res.oblige(nb == 0)
+    # ---- the same inputs through rustc as a real proc macro
+    pdir = cache_dir('c19probe')
+    os.makedirs(os.path.join(pdir, 'src'), exist_ok=True)
+    defs = []
+    for c in list(curated) + list(randcaps):
+        if c.source:
+            defs.append((c.id, c.source, c))
+    lib = ['#![allow(dead_code, unused)]']
+    ranges = []
+    for k, (cid, src, c) in enumerate(defs):
+        start = len(lib) + 1
+        lib.append('mod m%d { use logos::Logos; pub struct E; pub struct A; pub struct B; pub fn f() {} pub fn g() {} pub fn my_cb() {}' % k)
+        lib.append(src)
+        lib.append('}')
+        ranges.append((start, len(lib), cid, c))
+    open(os.path.join(pdir, 'src', 'lib.rs'), 'w').write('\n'.join(lib) + '\n')
+    open(os.path.join(pdir, 'Cargo.toml'), 'w').write('[package]\nname = "c19probe"\nversion = "0.1.0"\nedition = "2021"\n\n[workspace]\n\n[dependencies]\nlogos = { path = "%s" }\n' % REPO)
+    shutil_copy = __import__('shutil').copy
+    shutil_copy(os.path.join(REPO, 'Cargo.lock'), os.path.join(pdir, 'Cargo.lock'))
+    r = sh(['cargo', 'build', '--offline', '--message-format=json', '--target-dir', cache_dir('target-c19')], cwd=pdir, check=False, timeout=1800)
+    diags = []
+    for ln in r.stdout.split('\n'):
+        if ln.startswith('{'):
+            try:
+                m = _json.loads(ln)
+            except ValueError:
+                continue
+            if m.get('reason') == 'compiler-message':
+                msg = m['message']
+                line = None
+                for sp in msg.get('spans', []):
+                    if sp.get('is_primary'):
+                        line = sp['line_start']
+                diags.append((msg.get('level'), msg.get('message', ''), line))
+    npan = 0
+    errs_by_def = {}
+    for level, text, line in diags:
+        owner = None
+        if line is not None:
+            for a, b, cid, c in ranges:
+                if a <= line <= b:
+                    owner = (cid, c)
+        if 'proc-macro derive panicked' in text or 'proc macro panicked' in text:
+            npan += 1
+            if npan <= 5:
+                res.violation(None, 'rustc: proc-macro derive panicked on %s' % (owner[0] if owner else 'line %s' % line),
+                              dict(definition=owner[1].source if owner else None, rustc_message=text[:300], mode='rustc'))
+        if level == 'error' and owner:
+            errs_by_def.setdefault(owner[0], []).append(text)
+    res.oblige(npan == 0)
+    res.count('rustc_definitions', len(defs))
+    res.count('rustc_diagnostics', len(diags))
+    if not diags and r.returncode != 0:
+        raise RuntimeError('rustc probe produced no diagnostics: ' + r.stdout[-800:])
+    # every definition the library rejects must carry an error in rustc too
+    miss = 0
+    for a, b, cid, c in ranges:
+        if c.panic is None and c.outcome == 'rejected' and cid not in errs_by_def:
+            miss += 1
+            if miss <= 4:
+                res.violation(None, 'rustc reports no error for rejected definition %s' % cid, dict(definition=c.source, mode='rustc'))
+    res.oblige(miss == 0)
+    res.cov['rule'] = ('curated must-reject definitions by class (variant shapes, duplicated / misplaced / unknown arguments, wrong literal kinds, malformed #[logos(...)] items, empty matches, look-behind at the start, '
+                       'unsupported regex features, greedy dots at every depth, undefined subpatterns) + seeded random malformed definitions + the repo corpus: generate() under catch_unwind; '
+                       'the same sources compiled by rustc with the real proc macro (stderr scanned for "proc-macro derive panicked", every rejected definition must carry an error); '
+                       'check_for_greedy_all vs Regex.Greedy.greedy (vm_compute) on every leaf')
+    res.trusted += ['Coq kernel + vm_compute', 'hook HIR printer', 'rustc JSON diagnostics parsing in lib/checks.py']
+    res.assumptions += ['panics inside syn / regex-syntax / regex-automata / rustc are outside the model; termination is observed (every call returned), the skeleton model covers only the two panic sites of logos code']
+    return res.finish('./vcheck C19 --tier ' + tier)
+
+
 def setup():
     ok, msg = build.coq_build()
     if not ok:
